@@ -36,6 +36,13 @@ class ConclusionSelector(LogicalOperator, ABC):
             self._conclusion_.update(conclusions)
             self.concluded_before[not self._is_false_].add(required_output)
 
+    def update_cache(self, values: Dict[int, HashedValue], cache=None):
+        # Outputs of a right branch that itself selects conclusions (a refined alternative) cannot be replayed from
+        # the right-side cache: which conclusion it selected is only known while it is being evaluated.
+        if cache is self.right_cache and isinstance(self.right, ConclusionSelector):
+            return
+        super().update_cache(values, cache)
+
     def _reset_only_my_cache_(self) -> None:
         super()._reset_only_my_cache_()
         # which conclusions were already produced is per evaluation: otherwise a re-evaluation selects no conclusion.
